@@ -103,6 +103,9 @@ impl JoinHandle {
     pub uninterp spec fn outcome(&self) -> Result<(), ThreadPanic>;
     #[verifier::external_body]
     pub fn join(self) -> (r: Result<(), ThreadPanic>) ensures exited(self), r == self.outcome() { unimplemented!() }
+    /// std::thread::JoinHandle::is_finished: whether the OS THREAD has ended — says nothing about the command loop
+    #[verifier::external_body]
+    pub fn is_finished(&self) -> (r: bool) ensures r == exited(*self) { unimplemented!() }
 }
 pub mod thread { pub type Result<T> = core::result::Result<T, super::ThreadPanic>; }
 impl<T> Clone for mpsc::UnboundedSender<T> {
